@@ -15,8 +15,8 @@
 (* with AldorSem steps and extends the session; otherwise it is Rejected:  *)
 (* one diagnostic, session unchanged.                                      *)
 (*                                                                         *)
-(* The same behaviour first runs the *batch* machine `bt` (an independent  *)
-(* instance of AldorSem on the whole file), so that the theorem            *)
+(* The same behaviour first runs the machine on the whole file (*batch*),  *)
+(* keeps the result, and starts afresh for the session, so that            *)
 (*   ReplEqBatch: for every history (every interleaving of the program's   *)
 (*   forms with at most P.maxbad erroneous forms at any positions) the     *)
 (*   session's output and final status equal the batch output and status   *)
@@ -29,15 +29,16 @@
 (***************************************************************************)
 EXTENDS AldorSem, Sequences
 
-VARIABLES bt,       \* state of the batch machine (same record shape as st)
+VARIABLES bres,     \* result of the batch run: [o, status, n] (<<>>-valued fields while it is still running)
           phase,    \* "batch" -> "session" -> "end"
           hist,     \* the history so far: <<[k |-> "ok"|"pre"|"bad", j |-> form number / catalogue index, o0 |-> Len(st.o) at entry]>>
-          bseg,     \* batch: Len(bt.o) when top-level form number i of P.top started (sequence indexed by i)
+          bseg,     \* batch: Len(st.o) when top-level form number i of P.top started (sequence indexed by i)
           ndiag     \* diagnostics printed so far
 
-rvars == <<pid, mode, st, bt, phase, hist, bseg, ndiag>>
+rvars == <<pid, mode, st, bres, phase, hist, bseg, ndiag>>
 
-Bat == INSTANCE AldorSem WITH st <- bt
+St0 == [c |-> Val(VUnit), e |-> <<>>, k |-> <<[f |-> "top", i |-> 1]>>, s |-> <<>>, g |-> <<>>,
+        o |-> <<>>, status |-> "run", n |-> 0]
 
 Forms == P.forms
 NForms == Len(Forms)
@@ -58,16 +59,20 @@ Between == st.status = "run" /\ st.c.k = "val" /\ Len(st.k) = 1 /\ st.k[1].f = "
 Item(k, j) == [k |-> k, j |-> j, o0 |-> Len(st.o)]
 
 ---------------------------------------------------------------------------
-(* batch: the whole file through AldorSem                                   *)
+(* batch: the whole file through AldorSem.  The machine `st` first runs the  *)
+(* file from beginning to end; its result is kept in bres and the machine is *)
+(* started afresh for the session.                                           *)
 BatchStep ==
-  /\ phase = "batch" /\ bt.status = "run"
-  /\ Bat!Step
-  /\ bseg' = IF Bat!IsVal /\ Bat!HasF /\ Bat!F.f = "top" THEN Append(bseg, Len(bt.o)) ELSE bseg
-  /\ UNCHANGED <<pid, mode, st, phase, hist, ndiag>>
+  /\ phase = "batch" /\ st.status = "run"
+  /\ Step
+  /\ bseg' = IF IsVal /\ HasF /\ F.f = "top" THEN Append(bseg, Len(st.o)) ELSE bseg
+  /\ UNCHANGED <<pid, mode, bres, phase, hist, ndiag>>
 BatchDone ==
-  /\ phase = "batch" /\ bt.status # "run"
+  /\ phase = "batch" /\ st.status # "run"
+  /\ bres' = [o |-> st.o, status |-> st.status, n |-> st.n]
+  /\ st' = St0
   /\ phase' = "session"
-  /\ UNCHANGED <<pid, mode, st, bt, hist, bseg, ndiag>>
+  /\ UNCHANGED <<pid, mode, hist, bseg, ndiag>>
 
 ---------------------------------------------------------------------------
 (* session                                                                   *)
@@ -80,7 +85,7 @@ EnterOk ==
      /\ IF fm.k = "f"
         THEN st' = st                       \* a function definition: the session gains the name (Defined), nothing runs
         ELSE fm.i = st.k[1].i /\ RetTop     \* AldorSem's file-level step: start evaluating P.top[fm.i]
-  /\ UNCHANGED <<pid, mode, bt, phase, bseg, ndiag>>
+  /\ UNCHANGED <<pid, mode, bres, phase, bseg, ndiag>>
 
 (* a later form of the program entered while a name it reads has no meaning yet: rejected *)
 EnterPre(j) ==
@@ -88,7 +93,7 @@ EnterPre(j) ==
   /\ j \in (NOk + 2)..NForms /\ ~WellTypedIn(j)
   /\ hist' = Append(hist, Item("pre", j))
   /\ ndiag' = ndiag + 1
-  /\ UNCHANGED <<pid, mode, st, bt, phase, bseg>>
+  /\ UNCHANGED <<pid, mode, st, bres, phase, bseg>>
 
 (* a form of the ill-typed catalogue: rejected in every session *)
 EnterBad(c) ==
@@ -96,34 +101,33 @@ EnterBad(c) ==
   /\ c \in DOMAIN P.cat
   /\ hist' = Append(hist, Item("bad", c))
   /\ ndiag' = ndiag + 1
-  /\ UNCHANGED <<pid, mode, st, bt, phase, bseg>>
+  /\ UNCHANGED <<pid, mode, st, bres, phase, bseg>>
 
 (* end of input: AldorSem's file-level step past the last form *)
 EndOfInput ==
   /\ phase = "session" /\ Between /\ NOk = NForms
   /\ RetTop
-  /\ UNCHANGED <<pid, mode, bt, phase, hist, bseg, ndiag>>
+  /\ UNCHANGED <<pid, mode, bres, phase, hist, bseg, ndiag>>
 
 (* evaluation of the accepted form *)
 Eval ==
   /\ phase = "session" /\ st.status = "run" /\ ~Between
   /\ Step
-  /\ UNCHANGED <<pid, mode, bt, phase, hist, bseg, ndiag>>
+  /\ UNCHANGED <<pid, mode, bres, phase, hist, bseg, ndiag>>
 
 Record == [id |-> P.id, mode |-> mode, hist |-> hist, out |-> st.o, status |-> st.status,
-           bout |-> bt.o, bstatus |-> bt.status, ndiag |-> ndiag, steps |-> st.n]
+           bout |-> bres.o, bstatus |-> bres.status, ndiag |-> ndiag, steps |-> st.n]
 Finish ==
   /\ phase = "session" /\ st.status # "run"
   /\ PrintT("HIST " \o ToJson(Record))
   /\ phase' = "end"
-  /\ UNCHANGED <<pid, mode, st, bt, hist, bseg, ndiag>>
+  /\ UNCHANGED <<pid, mode, st, bres, hist, bseg, ndiag>>
 
 RInit ==
   /\ pid \in 1..Len(Progs)
   /\ mode \in Modes
-  /\ st = [c |-> Val(VUnit), e |-> <<>>, k |-> <<[f |-> "top", i |-> 1]>>, s |-> <<>>, g |-> <<>>,
-           o |-> <<>>, status |-> "run", n |-> 0]
-  /\ bt = st
+  /\ st = St0
+  /\ bres = [o |-> <<>>, status |-> "run", n |-> 0]
   /\ phase = "batch" /\ hist = <<>> /\ bseg = <<>> /\ ndiag = 0
 
 RNext == \/ BatchStep \/ BatchDone \/ EnterOk \/ EndOfInput \/ Eval \/ Finish
@@ -136,11 +140,11 @@ RSpec == RInit /\ [][RNext]_rvars
 (* properties                                                                *)
 
 (* C13, final form: same text in the same order, same end *)
-ReplEqBatch == phase = "end" => (st.o = bt.o /\ st.status = bt.status)
+ReplEqBatch == phase = "end" => (st.o = bres.o /\ st.status = bres.status)
 
 (* C13, stepwise: what the session has printed is always a prefix of what the file prints *)
 PrefixOf(a, b) == Len(a) <= Len(b) /\ SubSeq(b, 1, Len(a)) = a
-SessionPrefix == phase # "batch" => PrefixOf(st.o, bt.o)
+SessionPrefix == phase # "batch" => PrefixOf(st.o, bres.o)
 
 (* every accepted top-level form starts with the same amount of output behind it as in the batch run *)
 FormOutputsAlign ==
@@ -162,7 +166,7 @@ FunForm(fi) == CHOOSE j \in 1..NForms : Forms[j].k = "f" /\ Forms[j].i = fi
 CallsDefined == (phase = "session" /\ IsEv /\ X.e = "call") => FunForm(X.fi) \in Entered
 
 (* type soundness of the definition on both machines *)
-RNoStuck == st.status # "stuck" /\ bt.status # "stuck"
+RNoStuck == st.status # "stuck"
 
 (* the history stays within its bounds *)
 Bounded == NBad <= P.maxbad /\ NOk <= NForms
